@@ -20,6 +20,8 @@ TIMES = {
     # spacing far below the magnitude (relative 5e-6) and far below any absolute tolerance: still strictly increasing times
     "large-offset": [100000, 100000.5, 100001, 100001.5, 100002],
     "tiny": [0, 1e-9, 2e-9, 3e-9, 4e-9],
+    # 1-based frame numbers: the last explicit stamp equals the number of frames so far
+    "one-based": [1, 2, 3, 4, 5],
 }
 
 
@@ -159,6 +161,11 @@ def make_blocks(tier, seed):
         for tv in ("large-offset", "tiny"):
             add("1d", 1, True, 3, tv)
             add("1d-small", 2, False, 2, tv)
+        # time courses started with explicit stamps and continued with append(emulsion) without a time (the library chooses the stamp)
+        for tv, nexp in (("one-based", 1), ("one-based", 2), ("half-offset", 1), ("nonuniform", 2)):
+            add("1d", 1, True, 3 if tier != "thorough" else 4, tv, how="ctor+append", explicit=nexp)
+            if not light:
+                add("1d-small", 2, False, 2 if tier != "thorough" else 3, tv, how="ctor+append", explicit=nexp)
         add("2d", 2, False, 2, "half-offset", split=True)
         add("2d", 1, True, 3, "unit")
         add("3d", 2, False, 2, "neg-int")
@@ -208,6 +215,13 @@ def build(block, hist):
     for fr in hist:
         # alternate the droplet class between types so that class information must survive as well
         ems.append(Emulsion([(DiffuseDroplet(np.array(T[i][0], float), T[i][1], 0.1 * (i + 1)) if block["alph"] in ("2d", "2d-full") else SphericalDroplet(np.array(T[i][0], float), T[i][1])) for i in fr]))
+    if block.get("how") == "ctor+append":
+        # the first frames carry explicit stamps, the others are appended without one: the library's own stamps are used from there
+        m = min(block["explicit"], len(ems))
+        etc = EmulsionTimeCourse(ems[:m], times=list(times[:m]))
+        for em in ems[m:]:
+            etc.append(em)
+        return etc, T, L, dim, list(etc.times)
     etc = EmulsionTimeCourse(ems, times=list(times))
     return etc, T, L, dim, list(times)
 
